@@ -1041,12 +1041,19 @@ func runRaces(w *tr.W, rng *rand.Rand, rounds, keep int) (int, int) {
 		if r%4 < 2 { // the maps proper get half of all rounds
 			variant = wide[r%2]
 		}
+		duel := r%5 == 2
+		if duel { // a facade that reports whether it removed
+			variant = wide[2+(r/5)%4]
+		}
 		c := conf{variant: variant, n: 1 + (r/2)%3, capa: farCap, vmul: (r / 6) % 2, voff: rng.Intn(nMapKinds * nLRUKinds)}
 		threads := 2 + rng.Intn(3)
 		scheme := schemes[rng.Intn(len(schemes))]
 		nkeys := 2 + rng.Intn(3)
 		if nkeys < threads {
 			nkeys = threads
+		}
+		if duel {
+			threads, nkeys = 2+rng.Intn(2), 4+rng.Intn(3)
 		}
 		switch r % 16 {
 		case 5, 13:
@@ -1114,6 +1121,21 @@ func runRaces(w *tr.W, rng *rand.Rand, rounds, keep int) (int, int) {
 		case 4:
 			rec, rep := call(s, "set", pool[rng.Intn(len(pool))], 900, false)
 			pre = append(pre, tr.E{"ev": "call", "a": rec, "r": rep})
+		}
+		if duel {
+			// everybody sweeps the same present keys in the same order, removing them: of the callers
+			// that go for one entry at one instant exactly one removed it
+			pre = nil
+			for j, k := range pool {
+				rec, rep := call(s, "set", k, 900+j, false)
+				pre = append(pre, tr.E{"ev": "call", "a": rec, "r": rep})
+			}
+			for t := range progs {
+				progs[t] = nil
+				for _, k := range pool {
+					progs[t] = append(progs[t], step{"del", k, 0})
+				}
+			}
 		}
 		pendReset.Store(rst)
 		type sev struct {
